@@ -129,20 +129,40 @@ def handle (op : String) (j : Json) : Except String Json := do
     | .ok c => .ok (okJson (chartToJson lay lines c))
     | .error e => .ok (errJson e.toString)
   | "c04.denote" =>
+    -- the specification with its OWN lexer (`denoteText`: bookLine / bookTable / bookDoc); `shared` = the same
+    -- semantics over the reader's classifier (`denote`), reported so that the harness can check on every case that
+    -- the two agree wherever the by-the-book lexer is defined (`denoteText_eq_denote`)
     let lay ← getBookLayout j
     let lines ← getArr bytesOf? j "lines"
-    let den := denote lay lines
+    let den := denoteText lay lines
+    let shared := denote lay lines
     let g := grid defaultMaxDiv
-    let notes := match parseDoc lines with | .ok d => d.notes | .error _ => []
-    let lnobj : Bytes := match parseDoc lines with
-      | .ok d => (dictGet? d.header "LNOBJ".toList).getD []
-      | .error _ => []
+    let bdoc := bookDoc lines
+    let notes := match bdoc with | some d => d.notes | none => []
+    let lnobj : Bytes := match bdoc with
+      | some d => (dictGet? d.header "LNOBJ".toList).getD []
+      | none => []
     let tempo := match den with | some d => d.tempo | none => []
+    let lexAgree : Bool := match bdoc, parseDoc lines with
+      | some a, .ok b => decide (a.header = b.header) && decide (a.notes = b.notes)
+      | some _, .error _ => false
+      | none, _ => true
+    let denAgree : Bool := match den, shared with
+      | some a, some b => decide (a.hits = b.hits) && decide (a.holds = b.holds) && decide (a.tempo = b.tempo)
+      | some _, none => false
+      | none, _ => true
     let flags := obj [("grid_compatible", Json.bool (gridCompatible g tempo)),
                       ("resnap_margins", listToJson ratToJson (resnapMargins g tempo)),
                       ("lanes_ordered", Json.bool (lanesOrdered lay notes)),
-                      ("d05", Json.bool (d05Pred lay lnobj notes))]
+                      ("d05", Json.bool (d05Pred lay lnobj notes)),
+                      ("book_lexed", Json.bool bdoc.isSome),
+                      ("shared_defined", Json.bool shared.isSome),
+                      ("lex_agree", Json.bool (lexAgree && denAgree))]
     .ok (okJson (obj [("den", optToJson denotationToJson den), ("flags", flags)]))
+  | "c04.file_lines" =>
+    -- `fileLines`: the lines of a file's bytes by the book (LF / CRLF / bare CR)
+    let b ← bytesOf? (← field j "bytes")
+    .ok (okJson (listToJson bytesToJson (fileLines b)))
   | "c04.layout" =>
     let n ← getStr j "layout"
     let lay ← match bookLayout n with
